@@ -24,10 +24,26 @@ type Terms struct {
 	memo   map[*Stream]sym.Expr
 	mach   map[*ast.FuncLit]*dtab.Machine
 	Opaque []string // reasons why some term is only an opaque operator
+	closures map[string]*Closure
+	stages   map[string]*Stage
+}
+
+// ClosureByName returns the stateful closure behind an operator `closure:<name>`.
+func (t *Terms) ClosureByName(name string) *Closure { return t.closures[name] }
+
+// StageByName returns the hand-written stage behind an operator `stage:<name>`.
+func (t *Terms) StageByName(name string) *Stage { return t.stages[name] }
+
+func initTerms(t *Terms) {
+	t.closures = map[string]*Closure{}
+	t.stages = map[string]*Stage{}
+
 }
 
 func NewTerms(p *load.Program, r *Result) *Terms {
-	return &Terms{R: r, Prog: p, memo: map[*Stream]sym.Expr{}, mach: map[*ast.FuncLit]*dtab.Machine{}}
+	t := &Terms{R: r, Prog: p, memo: map[*Stream]sym.Expr{}, mach: map[*ast.FuncLit]*dtab.Machine{}}
+	initTerms(t)
+	return t
 }
 
 func (t *Terms) opaque(why string) {
@@ -136,7 +152,9 @@ func (t *Terms) compute(s *Stream) sym.Expr {
 		for _, in := range st.Ins {
 			args = append(args, t.delayed(in.S, delays))
 		}
-		return sym.Call{Fn: "stage:" + st.FnName + "/" + st.Construct, Args: args}
+		name := st.FnName + "/" + st.Construct
+		t.stages[name] = st
+		return sym.Call{Fn: "stage:" + name, Args: args}
 	}
 	if send == nil {
 		return opq("no steady-state send for " + s.Name + " in " + st.FnName)
@@ -366,6 +384,7 @@ func (t *Terms) applyClosure(cl *Closure, args []sym.Expr) (sym.Expr, error) {
 	}
 	if stateful || len(m.Params) != len(args) {
 		t.opaque("stateful closure " + name)
+		t.closures[name] = cl
 		return sym.Call{Fn: "closure:" + name, Args: args}, nil
 	}
 	sub := map[string]sym.Expr{}
